@@ -842,3 +842,22 @@ Theorem analyser_unrepaired_refuted : exists (w : world) (old : nat),
   old < next_id w
   /\ content (run w (actions_of (next_id w) old (service_writes true false (VAnalyserResult false)))) old <> content w old.
 Proof. exists {| next_id := 1; content := fun _ => 0 |}, 0. split; [cbn; lia|vm_compute; discriminate]. Qed.
+
+(** the models an Importer parses into its library: the same statement, file by file *)
+Theorem blank_insensitive_import : forall g1 g2 docs,
+  map (fun d => (erase_math (parse_ent g1 d), parse_issues g1 d)) docs
+  = map (fun d => (erase_math (parse_ent g2 d), parse_issues g2 d)) docs.
+Proof.
+  intros. apply map_ext. intros d. destruct (blank_insensitive_load_structure g1 g2 d) as [H1 H2].
+  rewrite H1, H2. reflexivity.
+Qed.
+
+(** resolving can only set the flag, never clear it *)
+Theorem resolve_keeps_or_sets : forall g docs, step g (OResolve docs) = false -> g = false.
+Proof.
+  intros g docs H. destruct g; [|reflexivity]. cbn [step] in H. rewrite resolve_true in H. discriminate.
+Qed.
+Theorem flatten_keeps_or_sets : forall g maths, step g (OFlatten maths) = false -> g = false.
+Proof.
+  intros g maths H. destruct g; [|reflexivity]. cbn [step] in H. rewrite reread_true in H. discriminate.
+Qed.
